@@ -16,7 +16,12 @@
            wrote. `emitted_sections` / `references` of the observed state must be the parsed
            sections (as a multiset) / references (as a set), and the state must satisfy the
            invariants `st_inv` of theorem C07_template_refs_closed whenever the Go reference
-           analysis found the written files sound (flag ok). *)
+           analysis found the written files sound (flag ok); the crt-list references of the
+           binds must be `file_refs` and every file of `written_files` must be on disk.
+           When the real code modified hosts in place after the frontend maps were last
+           built (known finding C01/ingress-default-backend-not-pretracked: the files lag
+           behind the objects) the hosts of the state are the ones the maps were built from
+           and the flag is false. *)
 From Coq Require Export String Ascii List NArith ZArith Bool.
 From HI Require Export Model.CfgRefs Model.TmplRefs.
 Export ListNotations.
@@ -42,15 +47,17 @@ Definition mk_thost n ps hp tls paths : thost :=
   {| th_name := n; th_pass := ps; th_httppass := hp; th_tls := tls; th_paths := paths |}.
 Definition mk_tback i t ul au r : tback :=
   {| tb_id := i; tb_tcp := t; tb_userlists := ul; tb_auth := au; tb_resolver := r |}.
-Definition mk_ttcp p hs d : ttcp := {| tt_port := p; tt_hosts := hs; tt_default := d |}.
+Definition mk_ttcp p hs d tls : ttcp := {| tt_port := p; tt_hosts := hs; tt_default := d; tt_tls := tls |}.
 Definition mk_tbind n b : tbind := {| ab_name := n; ab_backend := b |}.
-Definition mk_tstate hosts dh hp backs db uls res tcpb tcps an binds fm hn acme modsec prom : tstate :=
+Definition mk_tstate hosts dh hp backs db uls res tcpb tcps an binds fm hn cl acme modsec prom : tstate :=
   {| ts_hosts := hosts; ts_defhost := dh; ts_haspass := hp; ts_backs := backs; ts_default := db;
      ts_userlists := uls; ts_resolvers := res; ts_tcpbacks := tcpb; ts_tcp := tcps;
-     ts_authname := an; ts_binds := binds; ts_fmaps := fm; ts_httpsname := hn;
+     ts_authname := an; ts_binds := binds; ts_fmaps := fm; ts_httpsname := hn; ts_crtlist := cl;
      ts_acme := acme; ts_modsec := modsec; ts_prom := prom |}.
 
-Definition tobs := (tstate * list sid * list (string * sid) * bool)%type.
+(* observed state, parsed sections, parsed references to sections, parsed crt-list references
+   (section, file), files on disk, verdict of the Go reference analysis *)
+Definition tobs := (tstate * list sid * list (string * sid) * list (string * string) * list string * bool)%type.
 
 Inductive c07case :=
 | CCfg (id : N) (states : list (cfg * bool))
@@ -101,9 +108,15 @@ Definition ref_mem (x : string * sid) (l : list (string * sid)) : bool := exists
 Definition refs_same (a b : list (string * sid)) : bool :=
   forallb (fun x => ref_mem x b) a && forallb (fun x => ref_mem x a) b.
 
+Definition fref_mem (x : string * string) (l : list (string * string)) : bool := existsb (pair_eqb x) l.
+Definition frefs_same (a b : list (string * string)) : bool :=
+  forallb (fun x => fref_mem x b) a && forallb (fun x => fref_mem x a) b.
+
 Definition tobs_ok (o : tobs) : bool :=
-  let '(st, secs, refs, ok) := o in
-  sids_same (emitted_sections st) secs && refs_same (references st) refs && (negb ok || st_inv st).
+  let '(st, secs, refs, frefs, files, ok) := o in
+  sids_same (emitted_sections st) secs && refs_same (references st) refs &&
+  frefs_same (file_refs st) frefs && forallb (fun f => mem f files) (written_files st) &&
+  (negb ok || st_inv st).
 
 Definition case_ok (c : c07case) : bool :=
   match c with
